@@ -226,16 +226,8 @@ def check_nend_trimmer(s: str) -> bool:
     quals = None if _PARAM.get("fasta") else QUALS[:len(s)]
     read = Rec("r", s, quals)
     out = NEndTrimmer()(read, ModificationInfo(read))
-    if not _some_slice(out, s, quals):
-        return False
-    # ... and it is the slice without the N ends (only upper-case N counts)
-    lo = 0
-    while lo < len(s) and s[lo] == "N":
-        lo += 1
-    hi = len(s)
-    while hi > lo and s[hi - 1] == "N":
-        hi -= 1
-    return _same_slice(out, s, quals, lo, hi)
+    # which N ends are removed is C14's subject; here: whatever is removed, the result is an aligned slice of the read
+    return _some_slice(out, s, quals) and _unchanged(read, s, quals)
 
 
 def check_quality_trimmer(n: int, start: int, stop: int) -> bool:
@@ -466,7 +458,10 @@ def check_paired_revcomp(ax: int, ay: int, a_s: int, bx: int, by: int, b_s: int,
     use1, use2 = _PARAM.get("cutters", (True, True))
     seq1, quals1 = _text()
     seq2, quals2 = _text2()
-    ax, ay, bx, by = _fix(ax, 0, 5), _fix(ay, 0, 5), _fix(bx, 0, 5), _fix(by, 0, 5)
+    if use1 and (u1p if sym == "unswapped" else s1p):      # coordinates that are never used stay symbolic (one path)
+        ax, ay = _fix(ax, 0, 5), _fix(ay, 0, 5)
+    if use2 and (u2p if sym == "unswapped" else s2p):
+        bx, by = _fix(bx, 0, 5), _fix(by, 0, 5)
     if sym == "unswapped":
         u1, u2, s1, s2 = (ax, ay, a_s), (bx, by, b_s), (1, 2, c_s), (1, 2, d_s)
     else:
@@ -507,7 +502,8 @@ def check_paired_cutter(p1: bool, x1: int, y1: int, p2: bool, x2: int, y2: int) 
     action = _PARAM.get("action", "trim")
     seq1, quals1 = _text()
     seq2, quals2 = _text2()
-    x1, y1, x2, y2 = _fix(x1, 0, len(seq1)), _fix(y1, 0, len(seq1)), _fix(x2, 0, len(seq2)), _fix(y2, 0, len(seq2))
+    if p1 and p2:
+        x1, y1, x2, y2 = _fix(x1, 0, len(seq1)), _fix(y1, 0, len(seq1)), _fix(x2, 0, len(seq2)), _fix(y2, 0, len(seq2))
     a1 = StubAdapter("a1", [(k1, x1, y1, 1, 0)] if p1 else [None])
     a2 = StubAdapter("a2", [(k2, x2, y2, 1, 0)] if p2 else [None])
     pac = PairedAdapterCutter([a1], [a2], action=action)
@@ -567,16 +563,23 @@ for _action in ("trim", "mask", "lowercase", None):
                            "param": {"action": _action, "kinds": _kinds, "seq": "AcgT"}, "timeout": 180})
 for _action in _ACTIONS:
     for _kinds in _it.product(_KINDS, repeat=2):
-        CONDITIONS.append({"name": "revcomp/%s/%s" % (_action, _k(_kinds)), "fn": "check_revcomp",
-                           "param": {"action": _action, "kinds": _kinds, "seq": SEQ}, "timeout": 300,
-                           "thorough_only": _action != "trim" and _kinds != ("before", "after")})
-_PAIR = {"seq": "AcgT", "seq2": "tGNac"}
+        _quick = _action == "trim" or _kinds == ("before", "after")
+        if _quick:
+            CONDITIONS.append({"name": "revcomp/%s/%s" % (_action, _k(_kinds)), "fn": "check_revcomp",
+                               "param": {"action": _action, "kinds": _kinds, "seq": "AcgT"}, "timeout": 300})
+        CONDITIONS.append({"name": "revcomp/%s/%s/len5" % (_action, _k(_kinds)), "fn": "check_revcomp",
+                           "param": {"action": _action, "kinds": _kinds, "seq": SEQ}, "timeout": 600, "thorough_only": True})
+_PAIR = {"seq": "AcG", "seq2": "tGNa"}          # quick: R1 of length 3, R2 of length 4
+_PAIR_T = {"seq": "AcgT", "seq2": SEQ2}         # thorough: 4 and 5
 for _sym in ("unswapped", "swapped"):
     for _action in _ACTIONS:
         for _kinds in _it.product(_KINDS, repeat=2):
-            CONDITIONS.append({"name": "paired_revcomp/%s/%s/%s" % (_action, _k(_kinds), _sym), "fn": "check_paired_revcomp",
-                               "param": dict(_PAIR, action=_action, kinds=_kinds, sym=_sym), "timeout": 300,
-                               "thorough_only": _kinds[0] == _kinds[1] or (_action != "trim" and _kinds != ("before", "after"))})
+            _quick = _kinds[0] != _kinds[1] and (_action == "trim" or _kinds == ("before", "after"))
+            if _quick:
+                CONDITIONS.append({"name": "paired_revcomp/%s/%s/%s" % (_action, _k(_kinds), _sym), "fn": "check_paired_revcomp",
+                                   "param": dict(_PAIR, action=_action, kinds=_kinds, sym=_sym), "timeout": 300})
+            CONDITIONS.append({"name": "paired_revcomp/%s/%s/%s/len45" % (_action, _k(_kinds), _sym), "fn": "check_paired_revcomp",
+                               "param": dict(_PAIR_T, action=_action, kinds=_kinds, sym=_sym), "timeout": 600, "thorough_only": True})
     # some searches find nothing / only one read has an adapter cutter (-a without -A and the reverse)
     for _present in ((True, False, False, True), (False, True, True, False), (False, False, True, True), (True, True, False, False)):
         CONDITIONS.append({"name": "paired_revcomp/trim/ab/%s/present=%s" % (_sym, "".join("1" if x else "0" for x in _present)), "fn": "check_paired_revcomp",
@@ -586,9 +589,26 @@ for _sym in ("unswapped", "swapped"):
                            "param": dict(_PAIR, action="trim", kinds=("after", "before"), sym=_sym, cutters=_cutters), "timeout": 300})
 for _action in _ACTIONS:
     for _kinds in (("before", "after"), ("after", "before"), ("before", "before"), ("after", "after")):
-        CONDITIONS.append({"name": "pair_adapters/%s/%s" % (_action, _k(_kinds)), "fn": "check_paired_cutter",
-                           "param": dict(_PAIR, action=_action, kinds=_kinds), "timeout": 300,
-                           "thorough_only": _kinds[0] == _kinds[1]})
+        if _kinds[0] != _kinds[1]:
+            CONDITIONS.append({"name": "pair_adapters/%s/%s" % (_action, _k(_kinds)), "fn": "check_paired_cutter",
+                               "param": dict(_PAIR, action=_action, kinds=_kinds), "timeout": 300})
+        CONDITIONS.append({"name": "pair_adapters/%s/%s/len45" % (_action, _k(_kinds)), "fn": "check_paired_cutter",
+                           "param": dict(_PAIR_T, action=_action, kinds=_kinds), "timeout": 600, "thorough_only": True})
+
+
+_BOUNDS = {
+    "read": "fixed text with distinct quality characters (FASTA variants without qualities for -u, -l, --trim-n and single-match actions); "
+            "plain trimmers and single-match actions: every read length 0..5 (symbolic); linked adapters: length %s; --times 2: length 4; "
+            "--revcomp: length %s; --pair-adapters and paired --revcomp: R1 length %s",
+    "cut lengths / --length": "-7..7 (reaching beyond both ends)",
+    "kernel return values": "every value allowed by the contract for the read length",
+    "match coordinates": "every 0 <= rstart <= rstop <= len (second round / 3' part of a linked adapter: every interval of what the first match left); "
+                         "absent matches as symbolic flags (single, --times 2, --revcomp, --pair-adapters) or fixed shapes (linked, paired --revcomp)",
+    "scores": "-3..3 (--revcomp), -2..2 for each of the four searches (paired --revcomp): only their order matters",
+    "actions": "trim, mask, lowercase, retain, crop, none with --times 1; trim, mask, lowercase, none with --times 2",
+    "characters": "NEndTrimmer: all strings over {A,N,n} up to length 4; ZeroCapper: all quality strings up to length 4 over 4 characters around the base (33 and 64)",
+    "concretisation": "_fix() turns the bounded match coordinates into concrete ints (one CrossHair path per value) in the linked, --revcomp and paired conditions; scores, flags and the other conditions' ints stay symbolic",
+}
 
 
 def describe():
@@ -598,11 +618,8 @@ def describe():
                       "modifiers.py:PairedAdapterCutter.__call__/_find_best_match_pair", "modifiers.py:ReverseComplementer.__call__, PairedReverseComplementer.__call__",
                       "adapters.py:RemoveBeforeMatch/RemoveAfterMatch.trimmed/remainder_interval/retained_adapter_interval/trim_slice",
                       "adapters.py:LinkedAdapter.match_to, LinkedMatch.trimmed/remainder_interval/retained_adapter_interval, remainder"],
-        "bounds": {"read": "fixed text, distinct quality characters; plain trimmers and single-match actions: every read length 0..5 (symbolic); linked: length 4 (thorough 5) resp. 5; --times 2: length 4; --revcomp: length 4; paired: R1 length 3, R2 length 4; FASTA (no qualities) variants for -u, -l, --trim-n, single-match actions",
-                   "cut lengths / --length": "-7..7 (beyond both ends)", "kernel return values": "every value allowed by the contract for the read length",
-                   "match coordinates": "every 0 <= rstart <= rstop <= len (second round / 3' part of a linked adapter: every interval of what the first match left)",
-                   "scores": "-3..3 (--revcomp), -2..2 per search (paired --revcomp): only their order matters", "actions": "trim, mask, lowercase, retain, crop, none; --times 1 and 2",
-                   "characters": "NEndTrimmer: all strings over {A,N,n} up to length 4; ZeroCapper: all quality strings up to length 4 over 4 characters around the base (33 and 64)"},
+        "bounds": {tier: dict(_BOUNDS, read=_BOUNDS["read"] % lens) for tier, lens in
+                   (("quick", ("5", "4", "3 and R2 4")), ("thorough", ("5 and 6", "4 and 5", "3 / 4 and R2 4 / 5")))},
         "outside_bounds": ["longer reads", "--times 3 and more (C09 checks the round rule for 3)", "--action=crop with linked adapters: documented as not working (doc/guide.rst, 'Linked adapters do not work in combination with --info-file, --action=mask and --action=crop'); cropped_read() raises AttributeError on a LinkedMatch, nothing is written",
                            "more than one adapter (pair) per cutter: the choice among candidates is C09's", "the loop chaining several modifiers (C10); composition of two slices is checked for two adapter rounds only",
                            "ReverseComplementer with a negative-score forward match and no reverse match (AssertionError before anything is returned: C16 known defect), excluded by precondition"],
